@@ -265,7 +265,8 @@ def finish(ctx: Ctx, selftest: Optional[Dict[str, Any]] = None) -> int:
           'per_rule': _per_rule(ctx),
           'samples': samples,
           'exhaustive': True,
-          'units': ctx.units,
+          'units': {**ctx.units, 'private_helper_call_sites_inlined_before_analysis': sum(getattr(ctx.src, 'inlined', {}).values()),
+                    'files_parsed': len(ctx.src.consulted)},
           'trusted_base': ctx.trusted,
           'information': ctx.infos[:80],
           'known_findings': sorted(printed_known),
